@@ -666,7 +666,9 @@ def rule_D2(ctx):
                         a, b = _linear(t.left), _linear(upper)
                         if a is not None and b is not None and a[0] == b[0]:
                             diff = a[1] - b[1] + (1 if isinstance(t.ops[0], ast.GtE) else 0)
-                    between = [y for y in own_walk(f.node) if isinstance(y, (ast.Assign, ast.AugAssign)) and pre[-1].lineno < y.lineno < x.lineno]
+                    used_ = {z.id for e_ in (t, upper) if e_ is not None for z in ast.walk(e_) if isinstance(z, ast.Name)}
+                    between = [y for y in own_walk(f.node) if isinstance(y, (ast.Assign, ast.AugAssign)) and pre[-1].lineno < y.lineno < x.lineno
+                               and any(isinstance(z, ast.Name) and z.id in used_ for tg in (y.targets if isinstance(y, ast.Assign) else [y.target]) for z in ast.walk(tg))]
                     if diff is None or between:
                         raise AnalysisError(f'{f.key}: remaining-bits test before {norm(x)} not in a comparable form (needs a human)')
                     if diff != 0:
